@@ -81,7 +81,9 @@ def cases(draw, tier):
             "observation", "i": 0}]
     return {"table": spec, "axis": draw(ops.AX),
             "invert": draw(st.booleans()), "inplace": draw(st.booleans()),
-            "sel": draw(SELECTORS)}
+            "sel": draw(SELECTORS),
+            # filter(ids_to_keep, axis, invert, inplace) called positionally
+            "positional": draw(st.sampled_from([False, False, True]))}
 
 
 def strategy(tier):
@@ -156,7 +158,8 @@ def check(case, rec):
             chosen = chosen + chosen[:1]
         arg = container(sel["container"], chosen)
         rec.cls("container:" + sel["container"])
-        r = t.filter(arg, axis=axis, invert=invert, inplace=inplace)
+        r = t.filter(arg, axis, invert, inplace) if case.get("positional") \
+            else t.filter(arg, axis=axis, invert=invert, inplace=inplace)
         exp = ref.filter_ids(axis, chosen, invert)
         _expect(r, t, exp, inplace, before, "filter(ids)")
         rec.nt(has_nz and 0 < len(exp.ids(axis)) < len(ids))
@@ -172,7 +175,8 @@ def check(case, rec):
             return pure(np.array(v, dtype=float).tolist(), str(i), md)
 
         rec.cls("pred:" + sel["fn"]["name"])
-        r = t.filter(spy, axis=axis, invert=invert, inplace=inplace)
+        r = t.filter(spy, axis, invert, inplace) if case.get("positional") \
+            else t.filter(spy, axis=axis, invert=invert, inplace=inplace)
         # called once per ID, in order, with the true complete vector
         exp_calls = [(ref.vec(axis, k), ids[k],
                       (ref.md_of(axis, k) if ref.md(axis) is not None
